@@ -47,11 +47,15 @@ type C16Case struct {
 	CRLF    bool `json:"crlf,omitempty"`
 	// LongName: the file name is so long that a temporary sibling named after it cannot be created
 	LongName bool `json:"long_name,omitempty"`
+	// Stale: left-over files with temporary-looking names (longer than the formatted text) sit next to FILE
+	Stale bool `json:"stale,omitempty"`
+	// Multi: one more fault-free run in which the command names a second, valid file in front of FILE
+	Multi bool `json:"multi,omitempty"`
 }
 
 func init() {
 	register("C16",
-		"file contents in five classes (parseable declaration file >=4KiB built from grammar-derived programs, small parseable file, statement-only snippet, syntactically invalid text, empty file) x fault plan (none; RLIMIT_FSIZE in {0,512,2048}; root-owned 0644 target run as uid 65534; read-only directory run as uid 65534; strace fault ENUMERATION: a calibration run lists every openat/write/pwrite64/rename*/fsync/fdatasync/close/chmod/fchmod/fchmodat/ftruncate/unlink*/link* call of the clean `falco fmt -w FILE` run that touches FILE or a sibling file in its directory, then for EVERY such call K and each of error=EIO, error=ENOSPC, error=EINTR, signal=KILL (once at K) and error=ENOSPC from K onwards one run with that injection; complete over K for each generated file, firing read back from strace's output). oracle: ORIG = bytes before, S = stdout of `falco fmt FILE` on a pristine copy if it exits 0, else 'fails'; after every run bytes(FILE) in {ORIG, S}; exit status non-zero => ORIG; killed by a signal => ORIG or complete S; S = 'fails' => ORIG. non-trivial: an injected fault fired at or after the first open-for-writing of the target or a sibling (or RLIMIT_FSIZE cut a write), or `falco fmt FILE` fails on a non-empty file (snippet/invalid class); distinct by (content, plan)",
+		"file contents in five classes (parseable declaration file >=4KiB built from grammar-derived programs, small parseable file, statement-only snippet, syntactically invalid text, empty file) x fault plan (none; RLIMIT_FSIZE in {0,512,2048}; root-owned 0644 target run as uid 65534; read-only directory run as uid 65534; strace fault ENUMERATION: a calibration run lists every openat/write/pwrite64/rename*/fsync/fdatasync/close/chmod/fchmod/fchmodat/ftruncate/unlink*/link* call of the clean `falco fmt -w FILE` run that touches FILE or a sibling file in its directory, then for EVERY such call K and each of error=EIO, error=ENOSPC, error=EINTR, signal=KILL (once at K) and error=ENOSPC from K onwards one run with that injection; complete over K for each generated file, firing read back from strace's output). oracle: ORIG = bytes before, S = stdout of `falco fmt FILE` on a pristine copy if it exits 0, else 'fails'; after every run bytes(FILE) in {ORIG, S}; exit status non-zero => ORIG; killed by a signal => ORIG or complete S; S = 'fails' => ORIG. every fourth case puts left-over files with temporary-looking names (.NAME.tmp, NAME.tmp, .NAME.swp, NAME~, NAME.bak; longer than the formatted text) next to FILE; every third case also runs (fault-free) `fmt -w other.vcl FILE` and applies the oracle to both files. non-trivial: an injected fault fired at or after the first open-for-writing of the target or a sibling (or RLIMIT_FSIZE cut a write), or `falco fmt FILE` fails on a non-empty file (snippet/invalid class); distinct by (content, plan)",
 		genC16, checkC16, 240*time.Second)
 }
 
@@ -118,6 +122,8 @@ func genC16(t *rapid.T) any {
 	}
 	c.Symlink = rapid.IntRange(0, 3).Draw(t, "symlink") == 3
 	c.LongName = !c.Symlink && rapid.IntRange(0, 5).Draw(t, "longname") == 5
+	c.Stale = !c.LongName && rapid.IntRange(0, 3).Draw(t, "stale") == 3
+	c.Multi = rapid.IntRange(0, 2).Draw(t, "multi") == 2
 	if rapid.IntRange(0, 4).Draw(t, "crlf") == 4 {
 		// a file saved with CR LF line endings (comments and long strings keep their carriage return)
 		c.Src = strings.ReplaceAll(strings.ReplaceAll(c.Src, "\r\n", "\n"), "\n", "\r\n")
@@ -184,6 +190,9 @@ func checkC16(raw json.RawMessage) iso.Result {
 	if c.LongName {
 		col.Label("file:long-name")
 	}
+	if c.Stale {
+		col.Label("dir:stale-temporary-files")
+	}
 	if c.Plan.Kind == "fsize" {
 		col.Label(fmt.Sprintf("fsize:%d", c.Plan.FSize))
 	}
@@ -249,6 +258,7 @@ func checkC16(raw json.RawMessage) iso.Result {
 		} else {
 			k.judge("no fault", k.spawn([]string{k.falco, "fmt", "-w", k.file}), false)
 		}
+
 	case "fsize":
 		if k.fresh(0o755, 0, 0) == nil {
 			o := k.spawn([]string{"prlimit", fmt.Sprintf("--fsize=%d", c.Plan.FSize), k.falco, "fmt", "-w", k.file})
@@ -293,6 +303,10 @@ func checkC16(raw json.RawMessage) iso.Result {
 		}
 	}
 
+	if c.Multi && k.fresh(0o755, 0, 0) == nil {
+		k.multi()
+	}
+
 	col.Count("runs", k.nRuns)
 	col.Res.NonTrivial = k.nt
 	head := c.Src
@@ -329,7 +343,46 @@ func (k *c16Ctx) fresh(dirMode os.FileMode, fileUID, fileGID int) error {
 			return err
 		}
 	}
+	if k.c.Stale {
+		// what an interrupted earlier run, an editor or a backup tool may have left behind
+		base := filepath.Base(k.file)
+		stale := append(append([]byte{}, k.orig...), []byte("\n# stale tail\n"+strings.Repeat("sub stale_left_over { set req.http.Stale = \"1\"; }\n", 150))...)
+		for _, n := range []string{"." + base + ".tmp", base + ".tmp", "." + base + ".swp", base + "~", base + ".bak", ".tmp", "tmp"} {
+			if err := os.WriteFile(filepath.Join(k.dir, n), stale, 0o666); err != nil {
+				return err
+			}
+			os.Chmod(filepath.Join(k.dir, n), 0o666)
+		}
+	}
 	return os.Chmod(k.dir, dirMode)
+}
+
+// c16Other: a second, valid file named in front of FILE on the command line (kind multi).
+const c16Other = "sub   vcl_deliver {\n set   resp.http.Other = \"file\" ;\n\n\n}\n"
+
+// multi: `falco fmt -w OTHER FILE` — every named file must hold its original bytes or exactly what
+// `falco fmt <that file>` prints; the exit-status rule is applied to FILE only (OTHER never fails).
+func (k *c16Ctx) multi() {
+	other := filepath.Join(k.dir, "other.vcl")
+	if err := os.WriteFile(other, []byte(c16Other), 0o644); err != nil {
+		k.col.Label("infra:fresh-failed")
+		return
+	}
+	so := k.spawn([]string{k.falco, "fmt", other})
+	if so.Infra() || so.Failed() {
+		k.col.Label("infra:multi-other-fmt-failed")
+		return
+	}
+	k.col.Label("plan:two-files")
+	o := k.spawn([]string{k.falco, "fmt", "-w", other, k.file})
+	k.judge("no fault, two files named (other.vcl FILE)", o, false)
+	if o.Infra() {
+		return
+	}
+	got, err := os.ReadFile(other)
+	if err != nil || !(bytes.Equal(got, []byte(c16Other)) || bytes.Equal(got, so.Stdout)) {
+		k.col.Failf("`falco fmt -w other.vcl FILE`: other.vcl holds neither its original bytes nor the text `falco fmt other.vcl` prints (err=%v)\n--- other.vcl now (head) ---\n%s\n--- expected ---\n%s", err, c16Head(got, 600), c16Head(so.Stdout, 300))
+	}
 }
 
 func (k *c16Ctx) read() ([]byte, bool) {
